@@ -14,9 +14,16 @@ import (
 // scripted peer in any order, duplicated, late, for unknown ids, with errors,
 // the peer's own calls whose ids collide with callback ids, deadlines on the
 // fake clock, and Stop racing all of it.
-func PushScenario(t *rapid.T) sim.Scenario {
+func PushScenario(t *rapid.T) sim.Scenario { return pushScenario(t, false) }
+
+// PushRestartScenario is PushScenario with the restart-focused opening in
+// every script: callbacks outstanding at the stop, the same Server started
+// again at once, new callbacks while the old ones are still being wound up.
+func PushRestartScenario(t *rapid.T) sim.Scenario { return pushScenario(t, true) }
+
+func pushScenario(t *rapid.T, restartFocus bool) sim.Scenario {
 	sc := sim.Scenario{}
-	sc.Cfg.AllowPush = rapid.IntRange(0, 9).Draw(t, "allowpush") != 0
+	sc.Cfg.AllowPush = restartFocus || rapid.IntRange(0, 9).Draw(t, "allowpush") != 0
 	sc.Cfg.Concurrency = pick(t, "limit", []int{1, 2, 32})
 	sc.Cfg.Salt = rapid.Uint64().Draw(t, "salt")
 	sc.Cfg.Chan = pick(t, "chan", []string{"direct", "pipe", "fragile"})
@@ -41,7 +48,7 @@ func PushScenario(t *rapid.T) sim.Scenario {
 	var pending []int    // parked handler nonces
 	nextK := 0
 	stopped, restarted := false, false
-	if sc.Cfg.AllowPush && rapid.IntRange(0, 6).Draw(t, "restartfocus") == 0 {
+	if sc.Cfg.AllowPush && (restartFocus || rapid.IntRange(0, 6).Draw(t, "restartfocus") == 0) {
 		// Restart-focused prefix: callbacks outstanding when the server stops, the
 		// same Server started again at once, new callbacks while the waiters of
 		// the old ones are (often, by a pin) still on their way.
@@ -51,7 +58,7 @@ func PushScenario(t *rapid.T) sim.Scenario {
 		for j, m := 0, rapid.IntRange(1, 4).Draw(t, "old"); j < m; j++ {
 			pushes++
 			callbacks = append(callbacks, pushes)
-			sc.Steps = append(sc.Steps, sim.Step{Op: "push", Push: "callback", K: pushes, D: pick(t, "deadline", []int{0, 0, 3000}), Burst: rapid.Bool().Draw(t, "b")})
+			sc.Steps = append(sc.Steps, sim.Step{Op: "push", Push: "callback", K: pushes, D: pick(t, "deadline", []int{0, 0, 3000, -1}), Burst: rapid.Bool().Draw(t, "b")})
 		}
 		sc.Steps[len(sc.Steps)-1].Burst = false
 		sc.Steps = append(sc.Steps, sim.Step{Op: pick(t, "stopkind", []string{"stop", "peerclose"}), Burst: true},
